@@ -19,6 +19,7 @@ REGISTRY = [
     ("gen_c16", "OpcodeCost.v"),
     ("gen_c03", "OpcodeSig.v"),
     ("gen_c06", "SlotFlags.v"),
+    ("gen_c02", "FastPaths.v"),
 ]
 
 
